@@ -5,15 +5,16 @@ import lexstreams as LS
 
 VOCAB = ["SELECT", "a", "(b,c)", "1", ",", "[x]", "From"]
 OPS = ["go:0", "go:1", "gn:1", "get", "pop", "mv:1", "close", "fin", "s:SELECT,a", "sm:SELECT,a", "sm:@NAME", "m:SELECT,a", "m:a", "mk:@PARENTHESIS", "ss:COMMA", "sms:COMMA", "s1:FROM",
-       "sm1:SELECT", "s2:SELECT,A", "sm2:A,FROM", "sm3:SELECT,A,FROM", "set:a,1", "setu:FROM,SELECT", "smsetu:A,SELECT", "src", "psrc", "gkid", "pkid", "split:COMMA"]
+       "sm1:SELECT", "s2:SELECT,A", "sm2:A,FROM", "s3:SELECT,A,FROM", "sm3:SELECT,A,FROM", "set:a,1", "setu:FROM,SELECT", "smsetu:A,SELECT", "src", "psrc", "gkid", "pkid", "split:COMMA"]
 PEEK = ("go", "gn", "get", "close", "fin", "s", "mk", "ss", "s1", "s2", "s3", "set", "setu", "src", "gkid")
 MOVE_N = {"sm:SELECT,a": 2, "sm:@NAME": 1, "sms:COMMA": 1, "sm1:SELECT": 1, "sm2:A,FROM": 2, "sm3:SELECT,A,FROM": 3, "smsetu:A,SELECT": 1}
 
 
-def oracle(ntoks, ops, answer):
+def oracle(ntoks, ops, answer, toks=None):
     """the documented cursor contract, judged on the implementation's answers"""
     fails = []
     pos = 0
+    toks = toks or []
     for op, res in zip(ops, answer[3:].split("\t")):
         r, _, p = res.rpartition("@")
         p = int(p)
@@ -23,6 +24,12 @@ def oracle(ntoks, ops, answer):
         if op in MOVE_N:
             if r == "T" and p != pos + MOVE_N[op]: fails.append(("success-advance", "%s succeeded but advanced by %d" % (op, p - pos)))
             if r == "F" and p != pos: fails.append(("failure-moved", "%s failed but moved the cursor" % op))
+        if name in ("s1", "sm1", "s2", "sm2", "s3", "sm3") and toks and r in ("T", "F"):
+            # the documented meaning of the keyword probes: the next k tokens, upper-cased, are exactly the k words
+            args = op.split(":")[1].split(",")
+            want = pos + len(args) <= len(toks) and all(toks[pos + i].upper() == a_ for i, a_ in enumerate(args))
+            if (r == "T") != want:
+                fails.append(("probe-answer", "%s at %d of %r answered %s" % (op, pos, toks, r)))
         if name == "close" and ((r == "-") != (pos >= ntoks)):
             fails.append(("close", "close() at %d of %d answered %s" % (pos, ntoks, r)))
         if name == "fin" and ((r == "T") != (pos >= ntoks)):
@@ -48,14 +55,13 @@ def run(ctx):
                        "lexer for every text without `#{`, each placeholder outside quotes is one NAME|CUSTOM_1 leaf with the placeholder's text" % (L, len(OPS), len(VOCAB)))
     r = ctx.rng.fork("c20")
     texts = [" ".join(p) for n in range(0, 4) for p in itertools.product(VOCAB, repeat=n)]
-    if quick:
-        texts = [t for i, t in enumerate(texts) if i % 3 == 0 or len(t.split()) < 3]
     reqs, meta = [], []
-    for t in texts:
+    for ti, t in enumerate(texts):
         n = len(t.split())
         for k in range(1, L + 1):
             for ops in itertools.product(OPS, repeat=k):
-                if k == L and quick and r.below(4):      # quick: a quarter of the longest sequences
+                # quick: every single operation on every token list; a sixth of the longest sequences
+                if k == L and k > 1 and quick and r.below(6):
                     continue
                 reqs.append("SC %s %s" % (E.enhex(t), ";".join(ops))); meta.append((t, n, ops))
     for _ in range(3000 if quick else 60000):
@@ -66,7 +72,7 @@ def run(ctx):
     for (t, n, ops), (_, a, _) in zip(meta, res):
         if not a.startswith("OK"):
             continue
-        for sig, detail in oracle(n, ops, a):
+        for sig, detail in oracle(n, ops, a, t.split()):
             pfam.report(ctx, "cursor:" + sig, {"kind": "ops", "entry": "TokenScanner", "input": t, "ops": list(ops), "observed": a[:300], "oracle": "c20: " + detail, "how_found": "stream cursor"})
     # (b) MyBatis
     alpha, _ = LS.alphabet()
@@ -100,6 +106,6 @@ def run(ctx):
 def replay(payload):
     if payload.get("kind") == "ops":
         a = E.run_impl(["SC %s %s" % (E.enhex(payload["input"]), ";".join(payload["ops"]))])[0]
-        print(a); return 1 if oracle(len(payload["input"].split()), payload["ops"], a) else 0
+        print(a); return 1 if oracle(len(payload["input"].split()), payload["ops"], a, payload["input"].split()) else 0
     x = E.run_impl(["LM %s" % E.enhex(payload["input"]), "L 7 %s" % E.enhex(payload["input"])])
     print(x); return 0 if x[0] == x[1] else 1
